@@ -11,7 +11,8 @@ from mc import alphabet as A
 LEVEL = 'exploration'
 RULE = ('full product of K{2,3} x D{K+1,K+2,8} x (F,T){(33,60),(65,100),(257,60)|(257,200)} x {cACGMM,cWMM} x 3 '
         'activity partitions x 3 permutation-field families; 13 beamformer names per scene')
-ASSUMPTIONS = ['thresholds of the statement: >= 99 % MAP accuracy, SIR >= 30 dB for every source and beamformer',
+ASSUMPTIONS = ['scenes are vetted: steering vectors of different sources at least 0.25 rad apart in every bin (|cos| <= 0.97)',
+               'thresholds of the statement: >= 99 % MAP accuracy, SIR >= 30 dB for every source and beamformer',
                'scene: sources disjoint over frames, generic per-frequency steering vectors, sensor noise -40 dB (-80 and -120 dB for a subset)']
 
 BEAMFORMERS = ('mvdr_souden', 'mvdr_souden+ban', 'gev', 'gev+ban', 'rank1_pca+mvdr_souden',
@@ -108,6 +109,19 @@ def run_scene(key):
     owner = partition(seed, K, T, pk)
     steer = A.cnormal(r, (F, K, D))
     steer /= np.linalg.norm(steer, axis=-1, keepdims=True) / np.sqrt(D)
+    if key.get('variant') != 'close_steering':
+        # vetted scene: in every bin the steering vectors of two sources are at least 0.25 rad apart (|cos| <= 0.97);
+        # closer pairs are beyond the angular resolution of the Watson model with its default max_concentration = 500
+        # (see the known finding of the un-vetted scene 'close_steering'); offending bins are redrawn
+        r2 = A.rng(seed, 'c17vet', K, D, F, T, pk)
+        for _ in range(100):
+            u = steer / np.linalg.norm(steer, axis=-1, keepdims=True)
+            g = np.abs(np.einsum('fkd,fjd->fkj', u.conj(), u)) - np.eye(K)
+            bad_bins = np.where(g.max(axis=(1, 2)) > 0.97)[0]
+            if not len(bad_bins):
+                break
+            new = A.cnormal(r2, (len(bad_bins), K, D))
+            steer[bad_bins] = new / (np.linalg.norm(new, axis=-1, keepdims=True) / np.sqrt(D))
     s = A.cnormal(r, (F, T))
     images = np.zeros((K, F, T, D), complex)
     for k in range(K):
@@ -215,6 +229,8 @@ def subchecks(tier, seed):
     thorough = tier == 'thorough'
 
     def cases():
+        # the un-vetted scene of seed 11 (bin 64: steering vectors with |cos| = 0.9945), independent of VERIF_SEED
+        yield (2, 3, 65, 100, 'cwmm', 'random', 'identity', -40, 'close_steering', 11)
         sizes = ((33, 60), (65, 100), (257, 60)) + (((257, 200),) if thorough else ())
         for K in (2, 3):
             for D in (K + 1, K + 2, 8):
